@@ -70,7 +70,7 @@ def gen_script(rng, mi, ms, lim):
                     'nest_try', 'random', 'shake', 'mult', 'not', 'trunc',
                     'trunc',
                     'push2_past', 'raw', 'loop_count', 'reverse_swap',
-                    'cache_flood', 'split_concat', 'nested_loops', 'eval_rec',
+                    'cache_flood', 'cache_foreign', 'split_concat', 'nested_loops', 'eval_rec',
                     'merkle_eval', 'big_item', 'depth_items', 'producer',
                     'producer', 'exact_chain', 'exact_chain'))
     if k == 'exact_chain':
@@ -258,6 +258,14 @@ def gen_script(rng, mi, ms, lim):
             O('REVERSE') + bytes([rng.choice((0, 1, 3, 4, 255))]),
             O('SWAP') + bytes([rng.choice((0, 1, 3, 255)),
                                rng.choice((0, 2, 3, 255))])))
+    if k == 'cache_foreign':
+        # cache entries that did NOT come from the stack (the error record a
+        # TRY leaves under E) read back onto it: the item limits hold for
+        # them as for every other item
+        rd = rng.choice((O('READ_CACHE') + b'\x01E',
+                         isa.push(b'E') + O('READ_CACHE_STACK'),
+                         (O('READ_CACHE') + b'\x01E') * 3))
+        return k, isa.TRY(O('FALSE') + O('VERIFY'), rd)
     if k == 'cache_flood':
         # write then read back more items than fit
         n = min(mi, 6)
